@@ -271,7 +271,8 @@ def ob_route_and_merge(report):
             for i, e in enumerate(evs):
                 if e.kind == 'next' and e.name == 'Some' and e.args[0] is not None:
                     pair = e.args[0]
-                    if not _plain_full_iteration(ex2, r.path, e.args[2], 'other.routes') or not (isinstance(pair, Agg) and len(pair.fields) == 2):
+                    if not (_plain_full_iteration(ex2, r.path, e.args[2], 'other.routes') or _plain_full_iteration(ex2, r.path, e.args[2], 'other.id2path')) \
+                            or not (isinstance(pair, Agg) and len(pair.fields) == 2):
                         return viol(ob, [ex, ex2], 'merge does not walk over every (id, route) of the other router', 'merge-iteration', path_summary(r), len(res2))
                     rest = evs[i + 1:]
                     nxt = next((j for j, x in enumerate(rest) if x.kind == 'next'), len(rest))
